@@ -8,7 +8,7 @@ Extraction "c13_model.ml"
   memory_read memory_read_user_tuple memory_read_userset_tuples memory_rswu
   sql_read sql_read_user_tuple sql_read_userset_tuples sql_rswu
   wf_store keys_unique wf_read_filter key_full wf_usersets_filter
-  flag_read_all_ignores_conditions flag_read_relationless_user
+  flag_read_all_ignores_conditions
   flag_usersets_conditions_ignored flag_usersets_duplicate_restrictions
-  flag_rswu_duplicate_user_filter flag_rswu_relationless_user flag_rswu_empty_object_ids
+  flag_rswu_duplicate_user_filter flag_rswu_empty_object_ids
   obs.
